@@ -264,6 +264,7 @@ package runtimev2
 //@ props C08 C18
 //@ modifies ctx.stackCur
 //@ ensures ctx.stackCur != nil && fresh(ctx.stackCur) && ctx.stackCur.Data != nil && ctx.stackCur.Before == old(ctx.stackCur)
+//@ ensures forall n string :: !dom(ctx.stackCur.Data, n)
 //@ ensures ctx.stackCur.depth == (old(ctx.stackCur) == nil ? 0 : old(ctx.stackCur.depth) + 1)
 
 //@ func (*Task).StackExitCur
